@@ -213,6 +213,12 @@ def _attempt_type_coercion(
             if not math.isfinite(coerced):
                 return value, False
 
+            # Underflow is lossy as well: a literal with a non-zero mantissa
+            # (e.g. "1e-400") must not be turned into 0.0
+            mantissa = value_stripped.lower().split("e")[0]
+            if coerced == 0 and any(ch in "123456789" for ch in mantissa):
+                return value, False
+
         # Log the repair (I4 compliance)
         repair_log.add(
             rule_id="TYPE_COERCION",
